@@ -58,6 +58,9 @@ func (n *Net) RoundTrip(req *http.Request) (*http.Response, error) {
 		req.Body.Close()
 	}
 	b := n.Routes[url]
+	if b == nil {
+		b = n.Routes["*"] // wildcard route
+	}
 	label := "unrouted"
 	if b != nil {
 		label = b.Label
